@@ -96,7 +96,8 @@ def stepLine (s : St) (t : List String) : St × String :=
   | ["ls"] => (s, lsS s.fs)
   | ["survey"] =>
     let v := survey s.fs
-    (s, s!"list={optS listVName v.listed} raw={pstateName v.raw} clean={optS cresName v.clean} left={if v.left.isEmpty then "-" else joinWith "," v.left}")
+    let lv := match v.listed with | some .alive => "Alive" | some .dead => "Dead" | some .undefined => "Undefined" | _ => "-"
+    (s, s!"list={lv} raw={pstateName v.raw} clean={optS cresName v.clean} left={if v.left.isEmpty then "-" else joinWith "," v.left}")
   | _ => (s, "err:bad-command")
 
 def comp : Comp := { σ := St, init := {}, step := stepLine }
